@@ -52,3 +52,34 @@ def install(engine):
     engine.lib["functools"] = LibNS("functools", {
         "partial": LibFunc("functools.partial", lambda I, f, *a, **k: Partial(f, a, k)),
     })
+
+
+class CooMatrixV:
+    """scipy.sparse.coo_matrix((data, (row, col)), shape=...) kept structurally: the three coordinate arrays and the
+    shape as given (ASSUMED: that is what the matrix contains; .toarray() is the dense array with those entries,
+    duplicates summed)"""
+    pyvc_symbolic = True
+
+    def __init__(self, data, row, col, shape):
+        self.data, self.row, self.col, self.shape = data, row, col, shape
+
+    def pyvc_getattr(self, I, attr, node):
+        if attr in ("data", "row", "col", "shape"):
+            return getattr(self, attr)
+        if attr == "toarray":
+            return LibFunc("coo_matrix.toarray", lambda I: ("dense array of", self))
+        raise Unsupported("coo_matrix." + attr)
+
+
+def _coo_matrix(I, arg, shape=None, **kw):
+    data, (row, col) = arg
+    return CooMatrixV(data, row, col, shape)
+
+
+_old_install = install
+
+
+def install(engine):        # noqa: F811
+    _old_install(engine)
+    engine.lib["scipy.sparse"] = LibNS("scipy.sparse", {"coo_matrix": LibFunc("scipy.sparse.coo_matrix", _coo_matrix)})
+    engine.lib["scipy.sparse.coo_matrix"] = engine.lib["scipy.sparse"].get("coo_matrix")
